@@ -65,15 +65,9 @@ func (d *DynamicAttr) Cost() int {
 }
 
 func (d *DynamicAttr) ResolveAttr(ctx context.Context, name string) (Object, error) {
-	if d.value != nil {
-		return d.value, nil
-	}
-	attr, err := d.fn(ctx, name)
-	if err != nil {
-		return nil, err
-	}
-	d.value = attr
-	return attr, nil
+	// Resolved anew each time: the value may depend on the context (the
+	// standard streams of the OS that the current evaluation runs under)
+	return d.fn(ctx, name)
 }
 
 func NewDynamicAttr(name string, fn ResolveAttrFunc) *DynamicAttr {
